@@ -599,37 +599,107 @@ Section Dialect.
   Qed.
 End Dialect.
 
-(* ================================================================ the sqlite3 handler *)
+(* ================================================================ the sqlite3 handler (as repaired) *)
 Definition plain_wsb (sql : str) : bool := forallb (fun c => implb (py_space c) (sq_space_start c)) sql.
 Lemma plain_wsb_spec sql : plain_wsb sql = true -> plain_ws sql.
 Proof.
   unfold plain_wsb, plain_ws. rewrite forallb_forall. intros H c Hc Hs. specialize (H c Hc). rewrite Hs in H. exact H.
 Qed.
 
-(* (4) an allowed command line without the -help/-version/-readonly/-safe shortcuts has SQL arguments, and each
-   of them separately is read-only: hence (1) and (2) hold for each *)
-Lemma sqlite3_allow_each tokens :
-  sqlite3_shortcut tokens = None -> sqlite3_classify tokens = Allow ->
-  sqlite3_parts (tl tokens) false <> [] /\
-  forall part, In part (sqlite3_parts (tl tokens) false) ->
-    sqlite3_sql part = Some true /\
-    (plain_ws part -> has_tcl_paren (sql_lex part) = false ->
-       (live_statements (sql_lex part) <= 1)%nat /\ leading (fun k => ro_word [] (py_upper k)) (sql_lex part)).
+(* the guard _TCL_VARIABLE over-approximates SQLite's $name(...) token: if the search finds nothing, the
+   reference tokenizer produces no such token *)
+Lemma tcl_idc_idchar c : tcl_idc c = idchar c.
 Proof.
-  intros Hs Ha. destruct (sqlite3_allow_parts tokens Hs Ha) as [Hne Hall]. split; [exact Hne|].
-  intros part Hin. rewrite Forall_forall in Hall. specialize (Hall part Hin). split; [exact Hall|].
-  intros Hp Ht. split; [eapply single_statement; eauto|eapply leading_keyword; eauto].
+  unfold tcl_idc, idchar, ascii_alnum.
+  destruct (N.leb 65 c && N.leb c 90), (N.leb 97 c && N.leb c 122), (N.leb 48 c && N.leb c 57); reflexivity.
+Qed.
+Lemma tcl_first_var_start c : tcl_first c = var_start c.
+Proof. reflexivity. Qed.
+
+Lemma var_body_paren_tcl : forall n s named a b, (length s <= n)%nat -> var_body s named = (a, b, VParen) -> tcl_body s = true.
+Proof.
+  induction n as [|n IH]; intros s named a b Hn H; destruct s as [|c r]; cbn [var_body tcl_body length] in *;
+    try (inversion H; fail); try lia.
+  rewrite tcl_idc_idchar.
+  destruct (N.eqb_spec c 40) as [->|N40]; [reflexivity|].
+  destruct (idchar c) eqn:Ic.
+  - unfold vcons in H. destruct (var_body r true) as [[a' b'] st'] eqn:E. inversion H; subst.
+    eapply IH; [|exact E]. lia.
+  - cbn [andb] in H.
+    destruct (N.eqb_spec c 58) as [->|N58]; [|inversion H].
+    destruct r as [|d r']; [inversion H|].
+    destruct (N.eqb_spec d 58) as [->|Nd].
+    + unfold vcons in H. destruct (var_body r' named) as [[a' b'] st'] eqn:E. inversion H; subst.
+      eapply IH; [|exact E]. cbn [length] in *; lia.
+    + exfalso. destruct d as [|p]; [inversion H|]. do 6 (destruct p; try (inversion H; fail)). contradiction.
 Qed.
 
-(* one write argument is enough for "ask" *)
-Lemma sqlite3_one_write tokens part :
-  sqlite3_shortcut tokens = None -> In part (sqlite3_parts (tl tokens) false) -> sqlite3_sql part <> Some true ->
-  sqlite3_classify tokens = Ask.
+Lemma lex1_paren_tcl s t r : lex1 s = Some (t, r) -> tcl_paren t = true -> tcl_at s = true.
 Proof.
-  intros Hs Hin Hn. destruct (sqlite3_classify tokens) eqn:E; try reflexivity.
-  - destruct (sqlite3_allow_parts tokens Hs E) as [_ Hall]. rewrite Forall_forall in Hall. specialize (Hall part Hin). contradiction.
-  - unfold sqlite3_classify in E. rewrite Hs in E. destruct (sqlite3_parts (tl tokens) false); [discriminate|].
-    destruct (is_true _); discriminate.
+  destruct s as [|c r0]; [discriminate|]. unfold lex1.
+  destruct (sq_space_start c); [destruct (span sq_space r0); intros H; inversion H; subst; discriminate|].
+  destruct (N.eqb c 45).
+  { destruct r0 as [|d r']; [intros H; inversion H; subst; discriminate|].
+    destruct (N.eqb d 45); [destruct (to_eol r')|]; intros H; inversion H; subst; discriminate. }
+  destruct (N.eqb c 47).
+  { destruct r0 as [|d [|e r'']]; try (intros H; inversion H; subst; discriminate).
+    destruct (N.eqb d 42); [destruct (block_end (e :: r'')) as [[? ?]|]|]; intros H; inversion H; subst; discriminate. }
+  destruct (is_quote c); [destruct (quoted c r0) as [[? ?]|]; intros H; inversion H; subst; discriminate|].
+  destruct (N.eqb c 91); [destruct (until 93 r0) as [[? ?]|]; intros H; inversion H; subst; discriminate|].
+  destruct (N.eqb c 59); [intros H; inversion H; subst; discriminate|].
+  destruct (var_start c) eqn:V.
+  { destruct (var_body r0 false) as [[a b] st] eqn:E.
+    destruct st as [[|]| |]; intros H; inversion H; subst; try discriminate. intros _.
+    cbn [tcl_at]. rewrite tcl_first_var_start, V. cbn [andb].
+    eapply (var_body_paren_tcl (length r0)); [lia|exact E]. }
+  destruct (N.eqb c 65279); [intros H; inversion H; subst; discriminate|].
+  destruct (idchar c); [destruct (span idchar r0)|]; intros H; inversion H; subst; discriminate.
+Qed.
+
+Lemma tcl_search_suffix p r : tcl_search (p ++ r) = false -> tcl_search r = false.
+Proof.
+  induction p as [|c p IH]; cbn [app]; [auto|]. cbn [tcl_search]. intro H. apply orb_false_elim in H as [_ H]. apply IH, H.
+Qed.
+
+Lemma tcl_search_no_paren : forall n s, (length s <= n)%nat -> tcl_search s = false -> has_tcl_paren (sql_lex s) = false.
+Proof.
+  induction n as [|n IH]; intros s Hn Hs; rewrite sql_lex_eq.
+  - destruct s; [reflexivity|cbn [length] in Hn; lia].
+  - destruct (lex1 s) as [[t r]|] eqn:E; [|reflexivity].
+    unfold has_tcl_paren. cbn [existsb]. apply orb_false_intro.
+    + destruct (tcl_paren t) eqn:P; [|reflexivity]. pose proof (lex1_paren_tcl _ _ _ E P) as K.
+      destruct s as [|c s']; [discriminate|]. cbn [tcl_search] in Hs. rewrite K in Hs. discriminate.
+    + pose proof (lex1_len _ _ _ E) as Hl. apply lex1_app in E as [E _]. apply IH; [lia|].
+      rewrite <- E in Hs. eapply tcl_search_suffix, Hs.
+Qed.
+Lemma guard_no_paren s : tcl_search s = false -> has_tcl_paren (sql_lex s) = false.
+Proof. apply (tcl_search_no_paren (length s)). lia. Qed.
+
+(* an argument the repaired handler takes for read-only: (1) and (2) hold without any hypothesis on variable tokens *)
+Lemma classify_sql_readonly part : classify_sql part = Some true ->
+  sqlite3_sql part = Some true /\ has_tcl_paren (sql_lex part) = false /\
+  (plain_ws part -> (live_statements (sql_lex part) <= 1)%nat /\ leading (fun k => ro_word [] (py_upper k)) (sql_lex part)).
+Proof.
+  intro H. apply classify_sql_true in H as (Ht & _ & Hr). pose proof (guard_no_paren _ Ht) as Hp.
+  split; [exact Hr|]. split; [exact Hp|]. intro Hw.
+  split; [eapply single_statement; eauto|eapply leading_keyword; eauto].
+Qed.
+
+(* (4) every way the handler allows *)
+Lemma sqlite3_allow_each tokens :
+  sqlite3_classify tokens = Allow ->
+  let '(parts, help_flag, readonly_flag, cmd_seen) := sqlite3_scan (tl tokens) false in
+  mem_str $"-init" tokens = false /\
+  ((help_flag = true /\ cmd_seen = false) \/
+   (readonly_flag = true /\ forall part, In part parts -> acts_anyway part = false) \/
+   (parts <> [] /\ forall part, In part parts ->
+      sqlite3_sql part = Some true /\ has_tcl_paren (sql_lex part) = false /\
+      (plain_ws part -> (live_statements (sql_lex part) <= 1)%nat /\ leading (fun k => ro_word [] (py_upper k)) (sql_lex part)))).
+Proof.
+  intro Ha. pose proof (sqlite3_allow_cases tokens Ha) as H.
+  destruct (sqlite3_scan (tl tokens) false) as [[[parts h] r] c]. destruct H as [Hi H]. split; [exact Hi|].
+  destruct H as [H|[H|[Hne H]]]; [left; exact H|right; left; exact H|right; right].
+  split; [exact Hne|]. intros part Hin. apply classify_sql_readonly, H, Hin.
 Qed.
 
 (* ================================================================ witnesses (checked by computation) *)
